@@ -52,6 +52,24 @@ def _hook(v, val):
             raise Raised('re.error')
         except TypeError:
             raise Raised('TypeError')
+    if isinstance(v, T) and v.op == 'call' and v.args[0] in (
+            're.Pattern.findall', 're.findall', 're.Pattern.search',
+            're.search', 're.Pattern.finditer'):
+        hooks = [_hook]
+        rx = v.args[1]
+        c = re.compile(rx.args[0], rx.args[1]) if isinstance(rx, T) and \
+            rx.op == 'regex' else re.compile(ev(rx, val, hooks))
+        s = ev(v.args[2], val, hooks)
+        name = v.args[0].rsplit('.', 1)[1]
+        try:
+            r = getattr(c, name)(s)
+        except TypeError:
+            raise Raised('TypeError')
+        if name == 'finditer':
+            return [m.group(0) for m in r]
+        if name == 'search':
+            return r is not None
+        return r
     return NotImplemented
 
 
@@ -64,6 +82,7 @@ class Pipeline:
         self.keys = keys
         self.f = ctx.world.func(MOD, 'mask_password')
         self.cache = {}
+        self.guided = False
 
     def outcomes_for(self, present):
         present = frozenset(present)
@@ -98,9 +117,62 @@ class Pipeline:
         self.cache[present] = outs
         return outs
 
+    def run_guided(self, message, secret):
+        """Lazy enumeration: the one path this message takes (every
+        condition is evaluated on the message); used when the key tests are
+        not of the form ``key in message.lower()`` and the full table would
+        have 2^35 rows."""
+        from ..core.absint import Interp
+        from ..core.table import outcome_value
+        val = {MSG: message, SECRET: secret}
+        memo = {}
+
+        def guide(t):
+            r = memo.get(t, memo)
+            if r is memo:
+                try:
+                    r = ev(t, val, [_hook])
+                except Raised as e:
+                    memo[t] = e
+                    raise
+                memo[t] = r
+            elif isinstance(r, Raised):
+                raise r
+            return r
+        interp = Interp(self.ctx.world, inline_depth=6)
+        interp.guide = guide
+        interp.pure_calls.update({'re.sub', 're.subn', 're.Pattern.sub',
+                                  're.Pattern.subn', 're.Pattern.findall',
+                                  're.findall', 're.Pattern.search',
+                                  're.search', 're.Pattern.finditer'})
+        interp.pure_methods.update({'lower', 'casefold', 'upper'})
+        interp.ret_types['re.subn'] = 'tuple'
+        interp.ret_types['re.Pattern.subn'] = 'tuple'
+        interp.types[MSG] = 'str'
+        interp.types[SECRET] = 'str'
+        f = self.f
+        outs = interp.explore(lambda i: i.call(f, [MSG, SECRET]),
+                              max_paths=8)
+        notes = inexact_notes(outs)
+        if notes or len(outs) != 1:
+            raise CannotEval('mask_password: %d guided paths, %s' % (
+                len(outs), notes))
+        r = outcome_value(outs[0], val, [_hook])
+        if r[0] != 'return':
+            raise CannotEval('mask_password raises %s' % (r[1],))
+        return r[1]
+
     def run(self, message, secret='***'):
+        if self.guided:
+            return self.run_guided(message, secret)
         present = [k for k in self.keys if k in message.lower()]
-        outs = self.outcomes_for(present)
+        try:
+            outs = self.outcomes_for(present)
+        except AnalysisError as e:
+            if 'path bound' not in str(e):
+                raise
+            self.guided = True
+            return self.run_guided(message, secret)
         notes = inexact_notes(outs)
         if notes:
             raise CannotEval('mask_password extraction inexact: %s' % notes)
@@ -500,6 +572,36 @@ def _pipeline(ctx, keys):
                     check('many secrets', rname,
                           ' ; '.join(p[1] for p in pick),
                           ' ; '.join(p[2] for p in pick))
+        # a key glued to preceding text (which may itself start like another
+        # key: new_password, adminpassword)
+        for key in keys:
+            for pre in ('new_', 'admin', 'x', 'my_'):
+                k = pre + key
+                for rname, msg, want in renderings(k, 'abc', mask)[:4]:
+                    check('glued prefix', rname, msg, want)
+        # the same key several times in a row, nothing in between
+        for key in ('password', 'auth_token', 'sslkey'):
+            k = key
+            dense = (
+                ('key=value', '%s=a1 %s=b2 %s=c3' % (k, k, k),
+                 '%s=*** %s=*** %s=***' % (k, k, k)),
+                ('--key value', 'x --%s a1 --%s b2 --%s c3 y' % (k, k, k),
+                 'x --%s *** --%s *** --%s *** y' % (k, k, k)),
+                ('--key value', '--%s a1 --%s b2' % (k, k),
+                 '--%s *** --%s ***' % (k, k)),
+                ('key "value"', '%s "a1" %s "b2" %s "c3"' % (k, k, k),
+                 '%s "***" %s "***" %s "***"' % (k, k, k)),
+                ("key='value'", "%s='a1' %s='b2'" % (k, k),
+                 "%s='***' %s='***'" % (k, k)),
+                ('<key>value</key>', '<%s>a1</%s><%s>b2</%s>' % (k, k, k, k),
+                 '<%s>***</%s><%s>***</%s>' % (k, k, k, k)),
+                ('<key>value</key>', '<%s>a>1</%s> <%s>-</%s>' % (k, k, k, k),
+                 '<%s>***</%s> <%s>***</%s>' % (k, k, k, k)),
+                ('key --flag value', '%s --opt a1 %s --opt b2' % (k, k),
+                 '%s --opt *** %s --opt ***' % (k, k)),
+            )
+            for rname, msg, want in dense:
+                check('repeated key', rname, msg, want)
         # known-finding probes (recorded under their own constructs)
         check('probe', 'dict rendering followed by more quoted text',
               "{'password': 'x', 'user': 'admin'}",
